@@ -305,8 +305,8 @@ def run_entry(prog: dict) -> dict:
                 key = b"\0\0" + key[2:]       # Modbus/TCP: the same request apart from the transaction id
             f = frames.setdefault(key, len(frames) + 1)
             sends.append({"t": ev["t"], "f": f * 1000 + probe, "a": False})
-        elif ev["e"] == "DLV" and sends:
-            sends[-1]["a"] = True
+        elif ev["e"] in ("DLV", "ERR", "PEERCLOSE") and sends:
+            sends[-1]["a"] = True       # the network reacted to this transmission (an answer, an ICMP error, a reset)
         elif ev["e"] == "RET":
             endT = ev["t"]
             ret = ev
@@ -368,6 +368,19 @@ def extend(run: Run, prop: str, tier: str, rnd: random.Random) -> None:
                 eprogs.append(entry_program("discover", t, r, None, answer=tag))
             eprogs.append(entry_program("connect_discover", t, r, None, answer="DTU"))
         eprogs.append(entry_program("search", 1, 0, None))
+        # a long-lived inverter object: whatever the outcomes so far (answered, silence, refused, network failure), an
+        # unanswered request gets retries + 1 transmissions spaced one timeout
+        for n in (2, 3, 4, 5, 6):
+            hists = list(itertools.product("SFRE", repeat=n))
+            if len(hists) > (40 if quick else 400):
+                hists = rnd.sample(hists, 40 if quick else 400) + [tuple("F" * n), tuple("E" * (n - 1) + "F"), tuple("R" * (n - 1) + "F")]
+            for kinds in hists:
+                fam, port = (("ET", 8899), ("DT", 8899), ("ET", 502), ("ES", 8899), ("DT", 502))[len(eprogs) % 5]
+                r = 1 + len(eprogs) % 2
+                hp = hist_program(fam, port, "".join(kinds), r)
+                hp["delay"] = 0
+                hp["case"] = {"case": "entry", "what": f"history:{fam}:{port}:{''.join(kinds)}", "T": int(round(1 / TICK)), "retries": r}
+                eprogs.append(hp)
         cases += engine.parallel_map("harness.checks_api", "run_entry", eprogs, procs=16, chunk=2)
         # which probes discover() sends at all, in which order: the machine Discover.tla, all 320 environments
         compare_discover(run)
